@@ -3,7 +3,7 @@
     own-pointer fix-up, upper-level link, re-check) / softDelete / NewLevel / the iterator, replayed
     step by step against the real code. *)
 From Coq Require Import List Arith ZArith Lia Bool Sorting.Sorted.
-From NV Require Import Base.Sched Skip.Model Skip.Stmts Skip.Proofs Skip.IterStmts Skip.LinStmts Skip.LinProofs Skip.QuiescentScanStmts Skip.QuiescentScanProofs.
+From NV Require Import Base.Sched Skip.Model Skip.Stmts Skip.Proofs Skip.IterStmts Skip.LinStmts Skip.LinProofs Skip.QuiescentScanStmts Skip.QuiescentScanProofs Skip.HeightStmts Skip.HeightProofs.
 Import ListNotations.
 Open Scope Z_scope.
 
@@ -98,3 +98,14 @@ Example C13_lin_nonvacuous := lin_nonvacuous.
 Theorem C13_quiescent_scan : stmt_quiescent_scan.
 Proof. exact quiescent_scan. Qed.
 Print Assumptions C13_quiescent_scan.
+
+(** Marks are set top-down and never removed: in every reachable state (ALL programs, ALL schedules)
+    the marked levels of a node form an upper segment of its tower.  A node dead at level 0 is dead on
+    every index level, so a search that steps over a node that is unmarked on an index level may
+    descend inside it without entering the bottom list through a frozen pointer (the assumption
+    findPath makes when it checks marks only on the level it walks). *)
+Theorem C13_marks_upper_segment : forall progs sched, let y := runS (init progs) sched in
+  forall n i j, marked (sh y) n i = true -> (i <= j < length (nxt (node (sh y) n)))%nat ->
+    marked (sh y) n j = true.
+Proof. exact marks_upper_segment. Qed.
+Print Assumptions C13_marks_upper_segment.
